@@ -224,17 +224,28 @@ where
     print!("|");
     let len = labels.len();
     for (i, label) in labels.iter().enumerate() {
-        print!(" {:indent$} |", label, indent = widths[i]);
+        print!(" {} |", pad_right(label, widths[i]));
     }
     println!(
-        " {:indent$} |",
-        match result {
-            BDD::True => "True",
-            BDD::False => "False",
-            _ => unreachable!(),
-        },
-        indent = widths[len]
+        " {} |",
+        pad_right(
+            match result {
+                BDD::True => "True",
+                BDD::False => "False",
+                _ => unreachable!(),
+            },
+            widths[len]
+        )
     );
+}
+
+// pad with spaces on the right up to `width` characters; a run-time format width (`{:w$}`)
+// panics for widths above u16::MAX, which a long variable name reaches
+fn pad_right<D: Display>(text: D, width: usize) -> String {
+    let mut padded = text.to_string();
+    let missing = width.saturating_sub(padded.chars().count());
+    padded.extend(std::iter::repeat(' ').take(missing));
+    padded
 }
 
 // print header
@@ -246,11 +257,11 @@ where
     print!("|");
     for free_var in labels {
         let len = 1 + max(5, free_var.len());
-        print!(" {:indent$}|", free_var, indent = len);
+        print!(" {}|", pad_right(free_var, len));
     }
     println!();
     for width in widths {
-        print!("|{:->width$}", "", width = width + 2);
+        print!("|{}", "-".repeat(width + 2));
     }
     println!("|");
 }
